@@ -24,6 +24,8 @@ _CONFIRMED = mp.Value("i", 0)
 
 
 def patient(fn, *a, seconds=30, **kw):
+    if _CONFIRMED.value:
+        seconds = min(seconds, 15)  # the run already has a confirmed hang: bound the time spent on the remaining calls
     o = core.guarded(fn, *a, seconds=seconds, **kw)
     if o[0] != "timeout" or _CONFIRMED.value:
         return o
@@ -148,6 +150,9 @@ def apply_faults(layout, faults, seed):
                     plain[4:6] = value_bytes(val, 2, len(data), False)
                 elif fld == "guard_checksum":
                     plain[8 + 10 + 6 : 8 + 10 + 10] = value_bytes(val, 4, len(data), False)
+                elif fld == "guard_checksum_length":
+                    # declared length of the checksum setting: 0 / 1 / 65535 / beyond the area; "one" also stands for 3
+                    plain[8 + 10 + 4 : 8 + 10 + 6] = value_bytes(val, 2, len(data), False) if val != "one" else bytes([0, rng.choice([1, 3])])
                 elif fld == "guard_terminator":
                     plain[28:] = bytes(rng.randrange(1, 255) for _ in range(len(plain) - 28))
                 cfgm = bytes(data[regions["masked_config"][0] : regions["masked_config"][1]])
@@ -313,6 +318,16 @@ def run(ctx):
     area, _st = refguard.protect(b"".join(cfg_settings()), b"envkey-1", ["user", "ip"])
     for cut in (6144 - 6, 6144 - 6 - 1, 6000, 3000, 1):
         raw_jobs.append(("random", "guard_tail", area[cut:] + b"\x90" * 100, 0))
+    # a guard marker that is itself cut by the end of the file: the six bytes that complete a marker are the last bytes of
+    # the payload (nothing, a few zero bytes or one repeated byte follow), at and around the first offset a marker can have
+    import struct as _st
+
+    for opt_id, typ, ln in ((5, 1, 2), (6, 1, 2), (7, 1, 2), (8, 2, 4)):
+        start = _st.pack(">HHH", opt_id, typ, ln)
+        tail6 = bytes(x ^ 0x8A for x in start)[::-1]
+        for pre in ((6144 - 6, 6144, 9000) if not q else (6144 - 6, 7000)):
+            for suffix in (b"", b"\x00", b"\x00" * 5, b"\x41", start[:3]):
+                raw_jobs.append(("random", "guard_marker_at_eof", bytes(rng.choice([0x90, 0x00])) * 0 + bytes([0x90]) * pre + tail6 + suffix, 0))
     samples = []
     for z in sorted((core.REPO / "tests" / "beacons").glob("*.zip")):
         with zipfile.ZipFile(z) as zf:
